@@ -285,9 +285,9 @@ func GenPair(seed uint64, o GenOpts) *Pair {
 	used := map[int]bool{}
 	relW := []string{"unchanged", "unchanged", "renamed", "dup", "edit", "edit", "prefix", "suffix", "middle", "grow", "shrink", "empty", "deleted", "fromempty"}
 	if o.PathFocus {
-		relW = []string{"unchanged", "renamed", "renamed", "dup", "dup", "dupdrop", "edit", "patched+renamesrc", "grow", "shrink", "empty", "deleted", "swap", "chain"}
+		relW = []string{"unchanged", "renamed", "renamed", "dup", "dup", "dupdrop", "edit", "patched+renamesrc", "grow", "shrink", "empty", "deleted", "swap", "chain", "dupclobber", "dupclobber"}
 	} else {
-		relW = append(relW, "dupdrop", "patched+renamesrc", "swap", "chain", "concat")
+		relW = append(relW, "dupdrop", "patched+renamesrc", "swap", "chain", "concat", "dupclobber")
 	}
 	place := func(path string, data []byte) bool {
 		if !p.New.CanPlace(path) {
@@ -415,6 +415,24 @@ func GenPair(seed uint64, o GenOpts) *Pair {
 			place(f.path, olds[j].data)
 			place(olds[j].path, f.data)
 			p.feat("swap")
+		case "dupclobber":
+			// A is kept AND duplicated onto the path of old B, while old B is renamed to a new path C
+			j := -1
+			for k := i + 1; k < len(olds); k++ {
+				if !used[k] {
+					j = k
+					break
+				}
+			}
+			if j < 0 {
+				place(f.path, f.data)
+				break
+			}
+			used[j] = true
+			place(f.path, f.data)
+			place(olds[j].path, f.data)
+			place(g.newName(p.New, p.Old), olds[j].data)
+			p.feat("dup-onto-renamed-path")
 		case "chain":
 			j := -1
 			for k := i + 1; k < len(olds); k++ {
